@@ -111,6 +111,12 @@ pub enum Dimension {
     LengthRem,
     /// A length relative to font size.
     LenghtEm,
+    /// A length relative to the x-height of the font.
+    LengthEx,
+    /// A length relative to the character width of the font.
+    LengthCh,
+    /// A length relative to the larger viewport size.
+    LengthVmax,
     /// An angle.
     Angle,
     /// A duration.
@@ -119,6 +125,8 @@ pub enum Dimension {
     Frequency,
     /// A resolution (number of pixels per length).
     Resolution,
+    /// A fraction of the free space in a grid (the `fr` unit).
+    Flex,
     /// No dimension (no unit, percentage, or grid fraction).
     None,
     /// The dimension of an unknown (but named) unit.
@@ -139,8 +147,11 @@ impl Unit {
 
             Self::Vw => Dimension::LengthVw,
             Self::Vh => Dimension::LengthVh,
-            Self::Vmin | Self::Vmax => Dimension::LengthVx,
-            Self::Ch | Self::Em | Self::Ex => Dimension::LenghtEm,
+            Self::Vmin => Dimension::LengthVx,
+            Self::Vmax => Dimension::LengthVmax,
+            Self::Em => Dimension::LenghtEm,
+            Self::Ex => Dimension::LengthEx,
+            Self::Ch => Dimension::LengthCh,
             Self::Rem => Dimension::LengthRem,
 
             Self::Deg | Self::Grad | Self::Rad | Self::Turn => {
@@ -153,7 +164,8 @@ impl Unit {
 
             Self::Dpi | Self::Dpcm | Self::Dppx => Dimension::Resolution,
 
-            Self::Percent | Self::Fr | Self::None => Dimension::None,
+            Self::Percent | Self::None => Dimension::None,
+            Self::Fr => Dimension::Flex,
 
             Self::Unknown(ref name) => Dimension::Unknown(name.clone()),
         }
@@ -293,12 +305,15 @@ impl From<Dimension> for CssDimension {
             | Dimension::LengthVh
             | Dimension::LengthVx
             | Dimension::LengthRem
-            | Dimension::LenghtEm => Self::Length,
+            | Dimension::LenghtEm
+            | Dimension::LengthEx
+            | Dimension::LengthCh
+            | Dimension::LengthVmax => Self::Length,
             Dimension::Angle => Self::Angle,
             Dimension::Time => Self::Time,
             Dimension::Frequency => Self::Frequency,
             Dimension::Resolution => Self::Resolution,
-            Dimension::None => Self::None,
+            Dimension::None | Dimension::Flex => Self::None,
             Dimension::Unknown(s) => Self::Unknown(s),
         }
     }
